@@ -241,6 +241,7 @@ def check_fixed_extent(res, config, floor):
     from . import docext
     global DOC_EXT
     DOC_EXT, doc_stats = docext.load(ir.REPO)
+    fx.DOC_OF = lambda name: DOC_EXT.get(name)
     prog = ir.Program(config)
     LAST_PROG[config] = prog
     types = _types(prog)
